@@ -185,7 +185,7 @@ def lean_obligations(prop, thorough=False):
 def build_engine(engine):
     with Lock("cargo"):
         rc, out, err = sh(["cargo", "build", "--release", "--offline", "--bin", engine], cwd=HARNESS, timeout=3000)
-        if rc == 0 and engine == "macros":
+        if rc == 0 and engine in ("macros", "fmt", "holder"):
             # second build with debug assertions and overflow checks off (cases `macn`)
             rc, out, err = sh(["cargo", "build", "--profile", "nodebug", "--offline", "--bin", engine], cwd=HARNESS, timeout=3000)
     return rc, (out + err)[-8000:]
@@ -299,12 +299,12 @@ def corpus_lines(engine):
 # shrinking (generic over the line protocol: space separated fields, comma lists, numbers)
 
 # which space-separated fields of a case may be shrunk (list fields: drop elements; numeric: smaller)
-SHRINK_FIELDS = {"mlw": [1, 3, 4], "spy": [3], "fmt": [4], "queue": [3], "queue0": [2], "sock": [5], "holder": [2], "mac": [4], "macn": [4]}
+SHRINK_FIELDS = {"mlw": [1, 3, 4], "spy": [3], "fmt": [4], "queue": [3], "queue0": [2], "sock": [5], "holder": [2], "mac": [4], "macn": [4], "fmtn": [4], "holdern": [2]}
 
 ENGINE_OF = {"mlw": "mlw", "spy": "mlw", "fmt": "fmt", "std": "fmt", "val": "fmt", "raw": "fmt", "queue": "queue", "qstress": "queue", "queue0": "queue",
              "qburst": "queue", "qlatency": "queue", "qdroprace": "queue",
              "sock": "sock", "sockmt": "sock", "socklock": "sock", "sockcr": "sock", "holder": "holder", "mac": "macros", "macn": "macros",
-             "qemitdrop": "queue", "sockbig": "sock", "hdl": "fmt"}
+             "qemitdrop": "queue", "qdeep": "queue", "sockbig": "sock", "hdl": "fmt", "fmtn": "fmt", "cfl": "mlw", "holdern": "holder"}
 
 
 def engine_of(caseline, default):
